@@ -20,10 +20,11 @@ def sh(cmd, cwd=None, env=None, timeout=3600):
 
 def main():
     src, sid = sys.argv[1], sys.argv[2]
-    checks = None; confirm = True
+    checks = None; confirm = True; use_wt = False
     for a in sys.argv[3:]:
         if a.startswith('--checks'): checks = a.split('=')[1].split(',') if '=' in a else None
         if a == '--no-confirm': confirm = False
+        if a == '--wt': use_wt = True      # run the checks against a scratch worktree (KYUPY_REPO) instead of patching /repo itself
     meta = json.load(open(os.path.join(src, 'meta.json')))
     if 'author_ran' in meta: meta['ran'] = meta['author_ran']
     prop = meta.get('property')
@@ -50,15 +51,25 @@ def main():
         ok = out['confirmed'].get('applies') and rc0 == 0 and rc1 != 0 and rct == 0
         out['confirmed']['ok'] = bool(ok)
         print('confirmed' if ok else 'NOT CONFIRMED', json.dumps(out['confirmed'])[:600])
-    # run checks against the change applied to /repo
-    rc, o = sh(f'git -C {REPO} status --porcelain')
-    assert o.strip() == '', '/repo is not clean'
-    rc, o = sh(f'git -C {REPO} apply {patch}')
-    assert rc == 0, o
+    # run checks against the change applied to /repo (or to a scratch worktree with --wt)
+    env = None
+    if use_wt:
+        wt2 = f'/tmp/seedrun_{sid}'
+        sh(f'git -C {REPO} worktree remove --force {wt2}')
+        rc, o = sh(f'git -C {REPO} worktree add -q --detach {wt2} HEAD'); assert rc == 0, o
+        rc, o = sh(f'git -C {wt2} apply {patch}'); assert rc == 0, o
+        env = dict(os.environ, KYUPY_REPO=wt2)
+        out['ran_against'] = 'scratch worktree of /repo HEAD with the patch applied (KYUPY_REPO)'
+    else:
+        rc, o = sh(f'git -C {REPO} status --porcelain')
+        assert o.strip() == '', '/repo is not clean'
+        rc, o = sh(f'git -C {REPO} apply {patch}')
+        assert rc == 0, o
+        out['ran_against'] = '/repo with the patch applied, reverted afterwards'
     try:
         for c in checks:
             t0 = time.time()
-            rc, o = sh(f'/venv/bin/python check.py {c} --tier quick', cwd=V, timeout=3600)
+            rc, o = sh(f'/venv/bin/python check.py {c} --tier quick', cwd=V, env=env, timeout=3600)
             lines = [l for l in o.splitlines() if l.startswith('VIOLATION') or l.startswith('KNOWN-FINDING') or l.startswith('[' + c)]
             rep = None
             for l in lines:
@@ -73,8 +84,11 @@ def main():
                                 'no_failing_input_found': any('no-failing-input-found' in l for l in lines)}
             print(c, 'rc', rc, lines[-1] if lines else o[-300:])
     finally:
-        sh(f'git -C {REPO} checkout -- .')
-        rc, o = sh(f'git -C {REPO} status --porcelain'); assert o.strip() == '', o
+        if use_wt:
+            sh(f'git -C {REPO} worktree remove --force {wt2}')
+        else:
+            sh(f'git -C {REPO} checkout -- .')
+            rc, o = sh(f'git -C {REPO} status --porcelain'); assert o.strip() == '', o
     # restore evidence of the clean tree later (caller re-runs checks); store
     dst = os.path.join(V, 'seeded', sid)
     os.makedirs(dst, exist_ok=True)
